@@ -275,7 +275,11 @@ def r06e(ctx, run):
                         return None
                     return Term(m)
                 return super().default_method(recv, m, args, e)
-        it = DI(funcs={"TextSize::from": lambda i, a: a[0], "TextSize::new": lambda i, a: a[0], "input_snippet": lambda i, a: None},
+        def resolver(path):
+            last = path.rsplit("::", 1)[-1]
+            c = [f for f in ctx.syn.fns_in("diagnostics/src/lib.rs") if f.body is not None and f.qual.rsplit("::", 1)[-1] == last and not f.in_test]
+            return c[0] if len(c) == 1 else None
+        it = DI(resolver=resolver, funcs={"TextSize::from": lambda i, a: a[0], "TextSize::new": lambda i, a: a[0], "input_snippet": lambda i, a: None},
                 macros={"format": lambda i, e, env: "fmt", "vec": lambda i, e, env: []})
         names = disp.param_names()
         env = {"self": Obj("self")}
